@@ -81,7 +81,7 @@ def _dsl_namespace():
     ns.update(dict(clause=clause, raises=raises, contract=contract, klass=lambda *a, **k: None,
                    lemma=lambda *a, **k: None, contract_family=lambda *a, **k: None, record_override=lambda *a, **k: None, loop=lambda **k: k, __with_old__=WithOld,
                    MutList=lambda x: ("MutList", x), MutDict=lambda x: ("MutDict", x), Opt=lambda x: ("Opt", x),
-                   Val=lambda x: ("Val", x), Raw=lambda x: ("Raw", x), PyTuple=lambda *x: ("PyTuple",) + x, Fn="Fn"))
+                   Val=lambda x: ("Val", x), MapOf=lambda k, v: ("MapOf", k, v), Raw=lambda x: ("Raw", x), PyTuple=lambda *x: ("PyTuple",) + x, Fn="Fn"))
     return ns
 
 
